@@ -121,6 +121,9 @@ Init == /\ sc \in Scenarios
         /\ wall = [i \in 1..Len(sc.docs) |-> 0]
         /\ exit = None /\ pc = "start"
 Spec == Init /\ [][Next]_vars
+\* liveness: whatever the commands do (hang, die, detach, skip), the run ends -- checked under weak fairness of the steps
+FairSpec == Spec /\ WF_vars(Next)
+Terminates == <>Done
 
 Emit == Done => PrintT(<<"REPLAY", ToJson([sc |-> sc, predict |-> ModelObs])>>)
 =============================================================================
